@@ -17,6 +17,7 @@ EXTEND = {
         "mithril-aggregator/src/services/prover.rs", "mithril-aggregator/src/services/prover_legacy.rs",
         "mithril-aggregator/src/database/repository/cardano_transaction_repository.rs",
         "mithril-aggregator/src/message_adapters/to_cardano_transactions_proof_message.rs",
+        "mithril-aggregator/src/http_server/routes/proof_routes.rs",
         "internal/mithril-persistence/src/database/repository/cardano_transaction_repository.rs",
         "internal/mithril-resource-pool/src/resource_pool.rs",
         "internal/mithril-merkle-tree/src/merkle_map.rs",
@@ -29,8 +30,10 @@ EXTEND = {
             "multiples of 5) and of a CardanoTransactions beacon (15k-1) through the real signable builders and importer, compute_cache "
             "of both provers (sometimes skipped: stale cache; pool size 1-3), 3-6 (9) requests for transaction / block / legacy proofs "
             "(hashes stored below the beacon, in the beacon's own range, above the beacon, absent, of the other kind, duplicated, none), "
-            "mostly at the cached beacon, sometimes an older or newer one, interleaved with chain growth and imports; one case per "
-            "history plus one per produced proof. c11c: world = chain + legacy and v2 trees + a stake distribution of 1-40 pools; cases = "
+            "mostly at the cached beacon, sometimes an older or newer one, interleaved with chain growth and imports; every fourth "
+            "history asks through the REAL HTTP routes (DependenciesBuilder::create_http_routes over the history's provers and a "
+            "signed-entity service answering the beacon; hashes sent in another order with a repetition); one case per history plus "
+            "one per produced proof. c11c: world = chain + legacy and v2 trees + a stake distribution of 1-40 pools; cases = "
             "15 legacy, 2x14 v2, 7-8 stake-distribution deliveries and 3 signed-value alterations, each a certificate (own message, "
             "signed digest) and a response; all non-trivial; distinct request lines.",
     "level_text": "Aggregator layer: `Prover.lean` models the transaction store, both block-range-root tables as the importer fills them, the "
@@ -45,7 +48,7 @@ EXTEND = {
                   "certified items, non-certified list and root identity with the model, and replays every produced proof through the "
                   "Lean verifier (verdict + root bytes); S (real vs real, harness chain as oracle): proof accepted by the real client "
                   "verifier, reported items stored at or below the beacon with these fields, none omitted, root = the root the real "
-                  "signable builder signed for the cache's beacon, no refusal in the certification flow. Client layer: "
+                  "signable builder signed for the cache's beacon, no refusal in the certification flow; over HTTP also the announced block number / offset are the last certificate's. Client layer: "
                   "`ClientMsg.lean` models the four MessageBuilder paths (clone the certificate's message, overwrite root / block number / "
                   "offset / epoch) and match_message; proved: match implies the rebuilt message is the signed one part by part (or a "
                   "digest collision), hence the response's values are the signed ones, and conversely; K compares digest (SHA-256 in "
@@ -59,8 +62,9 @@ EXTEND = {
         "the hypotheses hcover / hinside of C11_prover_not_refused are not derived from the import history here (they are C13's "
         "store invariants: roots a function of the stored blocks, kept roots cover kept blocks); without hinside the refusal is real: "
         "known finding C11-beacon-inside-stored-range (C11_prover_inside_range_counterexample)",
-        "the HTTP handlers of proof_routes.rs (private module) are not driven: the v2 partition `requested \\ certified` is replicated "
-        "in the harness; the legacy partition runs the real ToCardanoTransactionsProofsMessageAdapter",
+        "in the histories that call the services directly the v2 partition `requested \\ certified` of the (private) HTTP handler is "
+        "replicated in the harness (the legacy one runs the real ToCardanoTransactionsProofsMessageAdapter); the histories run "
+        "through the real routes (every fourth) drive the handlers themselves",
         "proof GENERATION (ckb gen_proof / MKMap::compute_proof) is not modelled: that a produced proof verifies under the map's root is "
         "checked on every produced proof (K replay through Proofs.verifyV2 / verifyLegacy, S through the real verifier), not proved",
     ],
